@@ -488,9 +488,10 @@ RefParse(toks) ==
 (* ------------------------------------------------------------------------ *)
 (* Laws (checked by TLC over the universes of MC_Syntax)                    *)
 
-\* e: a tree; pm, pr: PrintTree(e, "min"), PrintTree(e, "red")
-LawSameTree(e, pm, pr) ==          \* the inserted parentheses are the only difference to the tree
-  LET s == StripN(EmitNode(e, 0).n) IN StripN(pm.n) = s /\ StripN(pr.n) = s
+\* e: a tree; pm, pr: PrintTree(e, "min"), PrintTree(e, "red"); plain: EmitNode(e, 0).n
+LawSameTreeP(plain, pm, pr) ==     \* the inserted parentheses are the only difference to the tree
+  LET s == StripN(plain) IN StripN(pm.n) = s /\ StripN(pr.n) = s
+LawSameTree(e, pm, pr) == LawSameTreeP(EmitNode(e, 0).n, pm, pr)
 LawOnlyParens(pm, pr) ==           \* the two texts differ only by parentheses
   SelectSeq(pm.t, NotParen) = SelectSeq(pr.t, NotParen)
 LawSpans(p) ==                     \* spans: root covers the text, children inside parents, in order
@@ -506,20 +507,35 @@ LawBytes(p) ==                     \* byte spans (single-space layout): non-empt
   BytesNested(p.n, p.t, Starts(p.t, 0, [i \in 1..Len(p.t) |-> 1]))
 LawReparse(p) ==                   \* the reference reading of the text is the tree (core only)
   InCore(p.t) => LET r == RefParse(p.t) IN r.ok /\ r.t = p.pt
-LawMinimal(e, pm) ==               \* every parenthesis of the minimal text is required (core, paren-free e)
-  (InCore(pm.t) /\ ParenNodes(EmitNode(e, 0).n) = {}) =>
-    \A pn \in ParenNodes(pm.n) :
-      LET toks == DropAt(DropAt(pm.t, pn[2]), pn[1])
-          r == RefParse(toks) IN
-      ~r.ok \/ StripN(EmitNode(r.t, 0).n) # StripN(pm.n)
+
+RECURSIVE SetToSeq(_)
+SetToSeq(S) == IF S = {} THEN <<>> ELSE LET x == CHOOSE x \in S : TRUE IN <<x>> \o SetToSeq(S \ {x})
+\* The reference reading of the (core) text pm with one pair of its parentheses removed, for each pair:
+\* [at: index of the "(", toks, ok, p: failure position, n: annotated tree of the reading]
+Readings(pm) ==
+  IF ~InCore(pm.t) THEN <<>>
+  ELSE LET pns == SetToSeq(ParenNodes(pm.n)) IN
+       [i \in 1..Len(pns) |->
+          LET tk == DropAt(DropAt(pm.t, pns[i][2]), pns[i][1])
+              r == RefParse(tk) IN
+          [at |-> pns[i][1], toks |-> tk, ok |-> r.ok, p |-> r.p,
+           n |-> IF r.ok THEN EmitNode(r.t, 0).n ELSE NoneNode]]
+\* every parenthesis of the minimal text is required (core, paren-free e): without it the text
+\* reads as another tree or is no sentence
+LawMinimalR(plain, pm, rd) ==
+  (ParenNodes(plain) = {}) => \A i \in 1..Len(rd) : ~rd[i].ok \/ StripN(rd[i].n) # StripN(pm.n)
+LawMinimal(e, pm) == LawMinimalR(EmitNode(e, 0).n, pm, Readings(pm))
 LawRoundTrip(toks) ==              \* whatever the reference parser accepts prints back to the same tokens
   InCore(toks) => LET r == RefParse(toks) IN r.ok => EmitNode(r.t, 0).t = toks
 
-TreeLaws(e, pm, pr) ==
-  /\ LawSameTree(e, pm, pr)
+\* rd = Readings(pm)
+TreeLawsR(e, pm, pr, rd) ==
+  LET plain == EmitNode(e, 0).n IN
+  /\ LawSameTreeP(plain, pm, pr)
   /\ LawOnlyParens(pm, pr)
   /\ LawSpans(pm) /\ LawSpans(pr)
   /\ LawBytes(pm)
   /\ LawReparse(pm) /\ LawReparse(pr)
-  /\ LawMinimal(e, pm)
+  /\ LawMinimalR(plain, pm, rd)
+TreeLaws(e, pm, pr) == TreeLawsR(e, pm, pr, Readings(pm))
 =============================================================================
